@@ -1,8 +1,8 @@
 from reghelp import *
 
 CHECK = dict(
-    runs=runs3('h_workpool', (16, 8, 16), (96, 48, 160)),
-    par=6,
+    runs=runs3('h_workpool', (16, 8, 16), (64, 32, 96)),
+    par=8,
     level='exploration',
     rule='one evaluation = one seeded execution (fresh process): several WorkPools in a row (vcpu_num 1/2/4, thread mode -1 / 0 / pooled, '
          'ring size 1/2/4/64, event engine none/epoll/epoll-ng), each loaded by photon-thread submitters on their own vCPUs and/or plain OS threads with '
@@ -11,15 +11,15 @@ CHECK = dict(
          'pool destroyed, and at least one of: sender found the ring full, task still running / still queued at destructor entry, task started while an '
          'earlier one on the same vCPU was unfinished, pooled thread reused; distinct = distinct signature (configuration + log2-bucketed rare-path counters)',
     floors=dict(quick=dict(evaluations=30, events=30000, distinct=10,
-                           cov={'C_WORKPOOL_RING_FULL': 500, 'C_WORKPOOL_NEW_THREAD': 5000, 'tasks_running_at_destructor_entry': 100,
+                           cov={'C_WORKPOOL_RING_FULL': 500, 'C_WORKPOOL_NEW_THREAD': 3000, 'tasks_running_at_destructor_entry': 100,
                                 'tasks_started_after_destructor_entry': 50, 'task_started_while_previous_on_same_vcpu_unfinished': 500,
                                 'pooled_thread_reused': 300, 'tasks_from_os_threads': 5000, 'tasks_from_photon_threads': 5000,
                                 'pools_destroyed_from_photon_thread': 10, 'pools_destroyed_from_os_thread': 10, 'bursts_larger_than_ring': 200}),
-                thorough=dict(evaluations=250, events=800000, distinct=60,
-                              cov={'C_WORKPOOL_RING_FULL': 10000, 'C_WORKPOOL_NEW_THREAD': 100000, 'tasks_running_at_destructor_entry': 2000,
-                                   'tasks_started_after_destructor_entry': 1000, 'task_started_while_previous_on_same_vcpu_unfinished': 10000,
-                                   'pooled_thread_reused': 5000, 'tasks_from_os_threads': 100000, 'tasks_from_photon_threads': 100000,
-                                   'pools_destroyed_from_photon_thread': 200, 'pools_destroyed_from_os_thread': 200, 'bursts_larger_than_ring': 4000})),
+                thorough=dict(evaluations=150, events=300000, distinct=60,
+                              cov={'C_WORKPOOL_RING_FULL': 5000, 'C_WORKPOOL_NEW_THREAD': 50000, 'tasks_running_at_destructor_entry': 1500,
+                                   'tasks_started_after_destructor_entry': 800, 'task_started_while_previous_on_same_vcpu_unfinished': 5000,
+                                   'pooled_thread_reused': 3000, 'tasks_from_os_threads': 50000, 'tasks_from_photon_threads': 50000,
+                                   'pools_destroyed_from_photon_thread': 150, 'pools_destroyed_from_os_thread': 150, 'bursts_larger_than_ring': 2000})),
     assumptions=['x86-TSO hardware; weaker orderings only through TSan (which does not model the fences of the ring channel)',
                  'a pool is never destroyed concurrently with a submission and nobody joins it with join_current_vcpu_into_workpool (outside the property)',
                  'stall points widen windows only where hooks exist (workerpool.cpp hand-off, semaphore signal/wait, cross-vCPU resume)'],
